@@ -34,8 +34,9 @@ from core import Driver, Failure, q
 
 ID = "C19"
 from genf import translate  # noqa: E402,F401  (regenerates lean/PyribsGen/Formulas.lean from the tree under check)
-PROOF_MODULES = ["PyribsProofs.C19", "PyribsGen.Formulas", "PyribsProofs.GenFOpt"]
+PROOF_MODULES = ["PyribsProofs.C19", "PyribsGen.Formulas", "PyribsProofs.GenFOpt", "PyribsProofs.GenFCtl"]
 THEOREMS = [
+    "Pyribs.GenFProofs.gae_num_parents_matches",
     # update rules of the gradient optimizers, regenerated from the source (harness/translate/formulas.py)
     "Pyribs.GenFProofs.ascent_matches",
     "Pyribs.GenFProofs.adam_matches",
